@@ -21,7 +21,7 @@ RULE = (
     "{1..9} u {k*c, k*c+-1} x chunksize {1,2,3,None} x seed {0,1,12345} x attributes {none, weights, redshifts, both; "
     "value i encodes source row i} x workers {1, 2 (virtual pool, all delivery orders)}; history: every sequence of "
     "length <= 3 over {direct call, probe, full pass, abandoned partial pass} before the observed pass, and repeated "
-    "Catalog.from_random with one generator; the same histories with a probe as the observed operation; explicit reseeding over {0,1,12345}^2 observed directly, through a reader created before, and through its probe; attribute tables with NaN / inf in different rows of weights and redshifts (pairs stay rows of the input); attribute tables of 1,2,3,7 rows: every row reachable (index range at the rng seam and 300*m real draws); probe: get_probe(s) for s in 1..n x chunksize {1,2,3,None} returns exactly s points, reproducibly; uniformity: the generator's rng replaced by a stub returning an exact "
+    "Catalog.from_random with one generator; the same histories with a probe as the observed operation; explicit reseeding over {0,1,12345}^2 observed directly, through a reader created before, and through its probe; attribute columns given as pandas Series with a permuted index (both, or one next to a plain array); attribute tables with NaN / inf in different rows of weights and redshifts (pairs stay rows of the input); attribute tables of 1,2,3,7 rows: every row reachable (index range at the rng seam and 300*m real draws); probe: get_probe(s) for s in 1..n x chunksize {1,2,3,None} returns exactly s points, reproducibly; uniformity: the generator's rng replaced by a stub returning an exact "
     "regular grid, the points must satisfy ra = lo+u(hi-lo), sin(dec) = sin(lo)+v(sin(hi)-sin(lo)). Oracle: exact "
     "count, every point inside the window, weight and redshift name the same source row, records identical to a "
     "fresh generator with that seed. Non-trivial: size not a multiple of the chunk size, or a non-empty history."
@@ -80,6 +80,9 @@ def cases(tier, seed):
         out.append(dict(part="rows", m=m))
     for bad in ("nan", "inf"):
         out.append(dict(part="rows", m=7, nonfinite=bad))
+    # attribute samples handed over as columns of a data frame whose integer index is a permutation (sorted / shuffled)
+    for which in ("both", "weights", "redshifts"):
+        out.append(dict(part="rows", m=7, series=which))
     # the probe used for generating patch centres: exactly the requested number of points, whatever the chunk size
     for c, n in itertools.product((1, 2, 3, None), (5, 7)):
         for size in range(1, n + 1):
@@ -278,6 +281,12 @@ def run_rows(case):
     m = case["m"]
     v = []
     kw = dict(weights=1.0 + np.arange(m), redshifts=0.01 * (np.arange(m) + 1))
+    if "series" in case:
+        import pandas as pd
+
+        index = [3, 0, 6, 1, 5, 2, 4]
+        for key in (("weights", "redshifts") if case["series"] == "both" else (case["series"],)):
+            kw[key] = pd.Series(kw[key], index=index)
     if "nonfinite" in case:
         # undefined entries in different rows of the two arrays: whatever is done with them, a drawn (weight, redshift)
         # pair must be a row of the input (or the input is refused)
